@@ -10,3 +10,6 @@ import GeoVerif.Model.UTMUPS
 import GeoVerif.Corr.C04
 import GeoVerif.Model.MGRS
 import GeoVerif.Corr.C05
+import GeoVerif.Model.Polygon
+import GeoVerif.Corr.C08
+import GeoVerif.Proofs.Digits
